@@ -145,22 +145,15 @@ fn c19_aid_block_wrap() {
     kani::cover!(true, "end of harness reached");
 }
 
-/// Crossing a block boundary: a generator whose block is used up draws from a fresh block that is
-/// a permutation of the next id range (hook H2: <= 2 transpositions), so the id after the boundary
-/// lies in the next range - different from every id of the previous block.
-#[kani::proof]
-#[kani::unwind(2050)]
-fn c19_mid_generate_across_boundary() {
+/// Crossing a block boundary: a generator whose block is used up draws from a fresh block covering
+/// the next id range, so the id after the boundary differs from every id of the previous block.
+/// `identity`: the shuffle hook is pinned to the identity permutation (quick tier) or left as up to
+/// two symbolic transpositions (thorough tier).
+fn across_boundary(marker: u64, identity: bool) {
     let action: u64 = kani::any();
-    let which: u8 = kani::any();
     kani::assume(action < MAX_ACTION_ID);
-    kani::assume(which < 3);
+    crate::verif::set_permute_identity(identity);
     let len = MESSAGE_ID_PREALLOC_LEN as u64;
-    let marker = match which {
-        0 => 0, // freshly created generator (lazy first block)
-        1 => len,
-        _ => MAX_MESSAGE_ID, // wrap
-    };
     let mut g = MIDGenerator {
         action_id: action << MESSAGE_ID_SHIFT,
         next_alloc: marker,
@@ -168,12 +161,34 @@ fn c19_mid_generate_across_boundary() {
         message_ids: [0u64; MESSAGE_ID_PREALLOC_LEN],
     };
     let t = g.generate();
+    crate::verif::set_permute_identity(false);
     let v = u64::from_be_bytes(t.as_ref().try_into().unwrap());
     let start = if marker == MAX_MESSAGE_ID { 0 } else { marker };
     assert!(v >> 24 == action, "C19: prefix lost across a block boundary");
     assert!((v & 0xff_ffff) >= start && (v & 0xff_ffff) < start + len, "C19: id after a block boundary is not from the next id range");
+    if identity {
+        assert!((v & 0xff_ffff) == start, "C19: first id of a fresh block (identity order) is not the block's first id");
+    }
     assert!(g.curr_index == 1 && g.next_alloc == start + len, "C19: generator state wrong after a block boundary");
     kani::cover!(true, "end of harness reached");
+}
+
+#[kani::proof]
+#[kani::unwind(2050)]
+fn c19_mid_across_boundary_new_generator() {
+    across_boundary(0, true);
+}
+
+#[kani::proof]
+#[kani::unwind(2050)]
+fn c19_mid_across_boundary_wrap() {
+    across_boundary(MAX_MESSAGE_ID, true);
+}
+
+#[kani::proof]
+#[kani::unwind(2050)]
+fn c19_mid_across_boundary_second_block_permuted() {
+    across_boundary(MESSAGE_ID_PREALLOC_LEN as u64, false);
 }
 
 /// AIDGenerator: two consecutive activities get different prefixes; prefix < 2^40.
